@@ -2,11 +2,11 @@
 # sweep.sh [ids...] : runs the quick tier of the given (default: all claimed) checks one after the other, records exit code and wall time
 cd /verif
 ids=${@:-$(python3 -c "import json;print(' '.join(c['property_id'] for c in json.load(open('MANIFEST.json'))['checks']))")}
-out=/verif/out/tmp/sweep.txt
+out=/verif/out/tmp/sweep${VERIF_SEED:+_seed$VERIF_SEED}.txt
 echo "== sweep $(date)" >> $out
 for p in $ids; do
   s=$(date +%s)
-  timeout 2400 ./check $p --tier quick > /verif/out/tmp/sweep_$p.log 2>&1
+  timeout 2400 ./check $p --tier quick > /verif/out/tmp/sweep${VERIF_SEED:+_seed$VERIF_SEED}_$p.log 2>&1
   rc=$?
   echo "$p exit $rc $(( $(date +%s) - s ))s" >> $out
 done
